@@ -369,6 +369,8 @@ class Family:
             res.findings += self.failed_rebuild()
         if self.prop in ("C06", "C01"):
             res.findings += self.reentrant_insert()
+        if self.prop in ("C01", "C10"):
+            res.findings += self.container_test_args()
         res.findings.sort(key=lambda f: (f.signature is not None, f.kind == "correspondence"))
         res.notes.append(f"disagreements attributed to other properties (reported by their own checks): {foreign}")
         return res
@@ -524,6 +526,56 @@ class Family:
         finally:
             shutil.rmtree(root, ignore_errors=True)
         return out[:2]
+
+    def container_test_args(self):
+        """`.test(func, *args)` with a list / dict / set among the arguments (the line protocol has no term for it):
+        the query must work wherever a query is taken — alone, with a measurement filter, through a handle, negated —
+        on the index path and on the scan path, and select exactly the points the function accepts"""
+        tf = C.import_tinyflux()
+        from tinyflux.storages import MemoryStorage
+
+        def member(v, coll):
+            return v in coll
+
+        out = []
+        for au in (True, False):
+            db = tf.TinyFlux(storage=MemoryStorage, auto_index=au)
+            for i in range(6):
+                db.insert(tf.Point(time=V.dt_of(G.T0 + i), measurement=("m1" if i % 2 else "m2"),
+                                   tags={"a": "xyz"[i % 3]}, fields={"f": i}))
+            for label, build, want_all, want_m1 in [
+                ("f.test(member, [1, 2, 5])", lambda: tf.FieldQuery().f.test(member, [1, 2, 5]), 3, 2),
+                ("a.test(member, {'x', 'y'})", lambda: tf.TagQuery().a.test(member, {"x", "y"}), 4, 2),
+                ("~f.test(member, [1, 2, 5])", lambda: ~tf.FieldQuery().f.test(member, [1, 2, 5]), 3, 1),
+                ("f.test(member, {1: 'a'}) | (a == 'z')", lambda: tf.FieldQuery().f.test(member, {1: "a"}) | (tf.TagQuery().a == "z"), 3, 2),
+            ]:
+                try:
+                    q = build()
+                except Exception as e:
+                    out.append(Finding(
+                        "impl-vs-spec", f"building the query {label} raised {type(e).__name__}: {str(e)[:80]}",
+                        dict(family="hist-container-args", query=label, auto_index=au, observed="raised " + type(e).__name__, property=self.prop)))
+                    continue
+                got = {}
+                for name, call in [("db.count(q)", lambda: db.count(q)), ("db.count(q, 'm1')", lambda: db.count(q, "m1")),
+                                   ("db.measurement('m1').count(q)", lambda: db.measurement("m1").count(q)),
+                                   ("len(db.search(q, 'm1'))", lambda: len(db.search(q, "m1"))),
+                                   ("len(db.measurement('m1').select('fields.f', q))", lambda: len(db.measurement("m1").select("fields.f", q))),
+                                   ("db.measurement('m1').contains(q)", lambda: db.measurement("m1").contains(q))]:
+                    try:
+                        got[name] = call()
+                    except Exception as e:
+                        got[name] = "raised " + type(e).__name__ + ": " + str(e)[:60]
+                want = {"db.count(q)": want_all, "db.count(q, 'm1')": want_m1, "db.measurement('m1').count(q)": want_m1,
+                        "len(db.search(q, 'm1'))": want_m1, "len(db.measurement('m1').select('fields.f', q))": want_m1,
+                        "db.measurement('m1').contains(q)": want_m1 > 0}
+                bad = {k: v for k, v in got.items() if v != want[k]}
+                if bad:
+                    out.append(Finding(
+                        "impl-vs-spec", f"mem/{'auto' if au else 'noauto'}: q = {label}: " + "; ".join(f"{k} = {v} (expected {want[k]})" for k, v in bad.items())[:600],
+                        dict(family="hist-container-args", query=label, auto_index=au, observed={k: str(v) for k, v in bad.items()},
+                             property=self.prop)))
+        return out[:1]
 
     def reentrant_insert(self):
         """`insert_multiple` consuming a generator that reads the same database between yields ("insert if absent"):
@@ -711,6 +763,10 @@ def signature(case, d):
 
 
 def replay(payload):
+    if payload.get("family") == "hist-container-args":
+        r = Family(payload.get("property", "C01")).container_test_args()
+        print(r[0].summary if r else "container-argument scenario passes")
+        return bool(r)
     if payload.get("family") == "hist-reentrant":
         r = Family(payload.get("property", "C06")).reentrant_insert()
         print(r[0].summary if r else "re-entrant insert scenario passes")
